@@ -8,6 +8,10 @@ class CallbackFault(Exception):
     pass
 
 
+class CallbackOSFault(PermissionError):
+    """a user callback failing with an OSError that has nothing to do with connections"""
+
+
 class RecSub(BaseSubscriber):
     """Records every callback with the scheduler step.
 
@@ -34,11 +38,13 @@ class RecSub(BaseSubscriber):
     def _fault(self, label, future):
         if label in self.fault_sites:
             s = self.w.sched
-            if s.choose(2, label):
-                e = CallbackFault(f'injected {label}')
+            kinds = (self.w.scn.get('faults') or {}).get('fatal_kinds', ('read',))
+            k = s.choose(1 + len(kinds), label)
+            if k:
+                e = CallbackFault(f'injected {label}') if kinds[k - 1] != 'oserror' else CallbackOSFault(13, f'injected {label}')
                 self.w.injected.append({'exc': e, 'label': label, 'retryable': False,
                                         'step': s.step, 'tid': self._tid(future)})
-                s.emit('fault', label=label, exc='CallbackFault', retryable=False,
+                s.emit('fault', label=label, exc=type(e).__name__, retryable=False,
                        tid=self._tid(future))
                 raise e
 
